@@ -70,6 +70,22 @@ def run_prefix(n: int, hist: List[Dict[str, Any]], k: int, salt: int, dup: bool 
 
     text = "$[" + ",".join(str(idx(i, True)) for i in range(1, n + 1)) + "]" if dup and n else "$[*]"
     qs: Dict[int, Any] = {1: jsonpath.query(text, [val(i) for i in range(n)])}
+    if dup and n >= 3 and k == 1:
+        # an environment of another class, limited to index 0, is asked for the same text: it refuses it (its own limits, not
+        # whatever another environment made of the text before)
+        from jsonpath.exceptions import JSONPathIndexError
+
+        class Limited(jsonpath.JSONPathEnvironment):
+            max_int_index = 0
+            min_int_index = 0
+
+        try:
+            list(Limited().query(text, [val(i) for i in range(n)]))
+            return ["query:another-environment-answered-with-the-first-environments-query"], {}
+        except JSONPathIndexError:
+            pass
+        except BaseException as e:  # noqa: BLE001
+            return [f"query:another-environment-raised-{type(e).__name__}"], {}
     bad: List[str] = []
     for j, h in enumerate(hist[:k]):
         last = j == k - 1
